@@ -100,6 +100,24 @@ def check(model, R, tier):
             a0 = env[a0.id]
         ok = isinstance(a0, ast.Call) and dotted(a0.func) == 'log_softmax_forward' and [norm(x) for x in a0.args] == ['y_pred', '1']
     R.ob('C14.TREE', f.qualname, 'nll_loss_forward(log_softmax_forward(y_pred, 1), y_true)', ok, 'cross-entropy = NLL of log_softmax along dim 1', f.loc)
+    # ---- BCE-with-logits = BCE(sigmoid(x), y): BCE is affine in the target, so the fused kernels must be affine in y_true as well
+    R.rule('C14.AFFINE', 'BCE(p, y) is affine in the target y; the natively implemented BCE-with-logits kernels must therefore be affine in y_true (necessary for the identity on soft labels in [0, 1])', floor=2)
+    from sa.absint import Interp, Tup
+    from sa.domains import linear as L
+    for q in (K + 'bce_with_logits_loss_forward', K + 'bce_with_logits_loss_backward'):
+        f = model.func(q)
+        dom = L.Linear({'y_true'}, affine=True)
+        I = Interp(model, f, dom)
+        try:
+            ret = I.run()
+            c = dom.c(ret)
+            ev = [e for e in I.events if e['kind'] == 'nonlin']
+            why = 'result is %s in y_true' % c
+            if ev:
+                why += '; first non-affine use of the target: %s at %s (%s)' % (norm(ev[0]['node'])[:70], ev[0]['loc'], ev[0]['why'])
+            R.ob('C14.AFFINE', q, 'dependence on y_true: %s' % c, c == L.LIN, why, f.loc)
+        except Incomplete as e:
+            R.incomplete_at('C14.AFFINE', q, str(e))
     R.note('undecided (native implementations, no tree to compare): cross-entropy backward, BCE-with-logits = BCE(sigmoid), log_softmax = log(softmax), convolution = unfold @ weight (shares only extract_windows), '
            'stack = concat of unsqueezed (np.stack), unbind inverts stack (np.rollaxis), mean = sum / count in the forward (np.mean), movedim between adjacent dims = transpose (np.moveaxis / np.swapaxes)')
     return dict(
